@@ -6,7 +6,7 @@
    known finding F10).  None = the Go code would index out of range. *)
 From Coq Require Import List ZArith Bool.
 Import ListNotations.
-From V Require Import Model.SyncRingConc Proofs.SyncRingConc Proofs.SyncRingConcTop Proofs.SyncRingSeqState Proofs.SyncRingShort Proofs.SyncRingPopProgress Proofs.SyncRingAba.
+From V Require Import Model.SyncRingConc Proofs.SyncRingConc Proofs.SyncRingConcTop Proofs.SyncRingSeqState Proofs.SyncRingShort Proofs.SyncRingPopProgress Proofs.SyncRingAba Proofs.SyncRingExcuse.
 Local Open Scope Z_scope.
 
 (* the freshly initialised ring of capacity 2^k satisfies the invariant, for every k in [1,31] and thread count *)
@@ -114,3 +114,33 @@ Theorem c01_fresh_is_necessary_refuted :
              replay (cap (sh c')) (lin (sh c')) [] = None.
 Proof. exact (conj aba_state_inv (conj aba_state_not_fresh syncring_aba_refuted)). Qed.
 Print Assumptions c01_fresh_is_necessary_refuted.
+
+(* "returns false only if the ring was full (empty) at some instant during the call or another operation overlapped it":
+   the two places where Push returns false, and the two where Pop does, in any reachable state under any interleaving.
+   A failed sequence check: the counter has moved since this operation loaded it (an operation of the same kind
+   linearised in between), or the ring is full (empty) at this very instant, or the slot is still owned by an operation
+   in flight.  A failed CAS: the counter has moved since this operation loaded it. *)
+Theorem c01_push_seq_check_fails_excused : forall k c i v pos T0 x,
+  Inv k c -> nth_error (ths c) i = Some (PuLoadSeq v pos T0) ->
+  nth_error (slots (sh c)) (sidx (sh c) pos) = Some x -> snd x <> pos ->
+  T0 < tl (sh c) \/ Z.of_nat (length (q (sh c))) = cap (sh c) \/
+  (exists j pj f, nth_error (ths c) j = Some pj /\ owner_phase pj = Some f /\ is_owned f = true /\
+                  sidx (sh c) (ticket f) = sidx (sh c) (tl (sh c))).
+Proof. exact push_seq_check_fails_excused. Qed.
+Print Assumptions c01_push_seq_check_fails_excused.
+Theorem c01_push_cas_fails_overtaken : forall k c i v pos seq T0,
+  Inv k c -> nth_error (ths c) i = Some (PuCas v pos seq T0) -> u32 (tl (sh c)) <> pos -> T0 < tl (sh c).
+Proof. exact push_cas_fails_overtaken. Qed.
+Print Assumptions c01_push_cas_fails_overtaken.
+Theorem c01_pop_seq_check_fails_excused : forall k c i pos H0 x,
+  Inv k c -> nth_error (ths c) i = Some (PoLoadSeq pos H0) ->
+  nth_error (slots (sh c)) (sidx (sh c) pos) = Some x -> snd x <> u32 (pos + 1) ->
+  H0 < hd (sh c) \/ q (sh c) = [] \/
+  (exists j pj f, nth_error (ths c) j = Some pj /\ owner_phase pj = Some f /\ is_owned f = true /\
+                  sidx (sh c) (ticket f) = sidx (sh c) (hd (sh c))).
+Proof. exact pop_seq_check_fails_excused. Qed.
+Print Assumptions c01_pop_seq_check_fails_excused.
+Theorem c01_pop_cas_fails_overtaken : forall k c i pos seq H0,
+  Inv k c -> nth_error (ths c) i = Some (PoCas pos seq H0) -> u32 (hd (sh c)) <> pos -> H0 < hd (sh c).
+Proof. exact pop_cas_fails_overtaken. Qed.
+Print Assumptions c01_pop_cas_fails_overtaken.
